@@ -29,7 +29,7 @@ func specC01() *propertySpec {
 		Rules: []ruleSpec{
 			{"C01-R1", "single-buffer: captureTestOutput, saveFailFile and the final replay stream all take result #5 of doCheck; the saved seed is result #3; the final replay logs to the TB", ruleC01R1},
 			{"C01-R2", "verified-pair: every returned (buffer, error) pair comes from one execution on that buffer, from a callee that guarantees it, or is the shrinker's (rec.data, err) state", ruleC01R2},
-			{"C01-R3", "prune-faithful: nothing derived from discarded bits steers later draws; discarded groups produce no used value; retry loops abandon the draw when their try counter runs out (shared with C04-R4.4/R4.5/R4.6/R4.8)", func(r *Run) { ruleC04R44(r); ruleC04R45(r); ruleC04R46(r); ruleC04R48(r); ruleC03R2(r) }},
+			{"C01-R3", "prune-faithful: nothing derived from discarded bits steers later draws; discarded groups produce no used value; retry loops abandon the draw when their try counter runs out (shared with C04-R4.4/R4.5/R4.6/R4.7/R4.8/R5, C03-R2)", rulePruneBundle},
 			{"C01-R4", "logged-is-returned: Draw logs and returns the single result of g.value(t)", ruleC01R4},
 			{"C01-R5", "no-phantom-failure: every bracket invocation gets a fresh (or reset) T and consults its own flag (shared with C11-R1, C02-R2)", func(r *Run) { ruleC11R1(r); ruleC02R2(r) }},
 			{"C01-R6", "flaky-only-on-mismatch: the 'flaky test' report is reachable only through traceback(err1) != traceback(err2) of doCheck's two errors", ruleC01R6},
@@ -37,6 +37,7 @@ func specC01() *propertySpec {
 			{"C01-R8", "replay-reads-what-was-recorded: the presented buffer is replayed word by word as it was recorded: drawBits records exactly the masked value it returns, the buffer stream consumes one word per draw (shared with C04-R3)", func(r *Run) { ruleC04R3(r); ruleC04R3buf(r) }},
 			{"C01-R9", "presented-case-sees-the-same-generator: the reproduction, every shrink attempt and the final replay draw from the generator the failing run drew from: no draw stores through or hands out generator-owned storage (shared with C15-R3)", ruleC15R3},
 			{"C01-R10", "no-failure-from-an-empty-rejected-attempt: a rejected attempt that drew nothing is not turned into a panic by endGroup's assertion on either stream kind (the search stream does not record, the reproduction does: a one-sided assertion is a 'flaky' report) (shared with C13-R6)", ruleEndGroupAssertExempt},
+			{"C01-R11", "an-invalid-case-is-not-a-falsification: an invalidData panic (Skip, exhausted filter, overrun) is not replaced on its way up by the assertion of a deferred endGroup (shared with C13-R9)", ruleNoDeferredEndGroup},
 		},
 	}
 }
@@ -442,15 +443,9 @@ func specC05() *propertySpec {
 			{"C05-R4", "who-may-write: s.rec and s.err are stored only in accept and the constructor; shrink returns (s.rec.data, s.err)", ruleC05R4},
 			{"C05-R5", "deadline-per-step: the round loop and the outermost loop of every pass test time.Now().Before(deadline); every accept call happens inside such a loop; the deadline is handed down unchanged", ruleC05R5},
 			{"C05-R6", "candidates-from-current: every buffer passed to accept is a fresh copy (without / append(nil, …)); nothing stores through s.rec.data", ruleC05R6},
-			{"C05-R7", "prune-faithful: the buffer minimisation returns is the pruned recording of a verified run; pruning is replay-neutral, i.e. nothing derived from discarded bits steers later draws and an exhausted retry loop abandons the draw, the element of a rejected collection step is never accumulated (shared with C04-R4.4/R4.5/R4.6/R4.8/R5, C03-R2)", func(r *Run) {
-				ruleC04R44(r)
-				ruleC04R45(r)
-				ruleC04R46(r)
-				ruleC04R48(r)
-				ruleC04R5(r)
-				ruleC03R2(r)
-			}},
+			{"C05-R7", "prune-faithful: the buffer minimisation returns is the pruned recording of a verified run; pruning is replay-neutral, i.e. nothing derived from discarded bits steers later draws and an exhausted retry loop abandons the draw, the element of a rejected collection step is never accumulated (shared with C04-R4.4/R4.5/R4.6/R4.7/R4.8/R5, C03-R2)", rulePruneBundle},
 			{"C05-R8", "minimisation-has-its-own-budget: shrink's deadline is shrinkDeadline(deadline) evaluated after the search (shared with C12-R5)", ruleShrinkBudget},
+			{"C05-R9", "a-fatal-failure-has-its-own-site: the failure site is the stack at which the test case panics: Fatal/Fatalf/FailNow panic inside (*T).fail on every path with now == true (also while cleanups run), otherwise the panic comes later from the deferred flag consult and all fatal sites collapse into the one non-fatal site, between which minimisation then moves freely (shared with C02-R1)", ruleC02R1},
 		},
 	}
 }
